@@ -150,7 +150,7 @@ impl Prop for C02 {
 
     fn gen(&self, rng: &mut Rng, n: usize, tier: Tier, out: &mut Vec<String>) {
         let fams = families();
-        let huge_every = if tier == Tier::Thorough { 40 } else { (n / 6).max(1) };
+        let huge_every = if tier == Tier::Thorough { (n / 25).max(1) } else { (n / 6).max(1) };
         for case in 0..n {
             out.push("reset".to_string());
             // (i) mutated encodings
